@@ -20,6 +20,9 @@ MUTATORS = {
 }
 
 
+OPAQUE_STR_METHODS = {"replace", "strip", "lower", "upper", "format", "lstrip", "rstrip", "split", "join"}
+
+
 class CallMixin(ExprMixin):
     def ev_Call(self, node, st):
         self.cur_line = node.lineno
@@ -48,6 +51,9 @@ class CallMixin(ExprMixin):
             h = getattr(self, "bi_" + name, None)
             if h is not None:
                 yield from h(node, st)
+                return
+            if name in S.OPAQUE_FUNCS:
+                yield from self.call_opaque(name, None, node, st)
                 return
             raise UnsupportedError(f"call to unknown function {name} at line {node.lineno}")
         if isinstance(f, ast.Attribute):
@@ -96,6 +102,15 @@ class CallMixin(ExprMixin):
                 raise UnsupportedError(f"call on enum {recv.name}.{attr}")
             dotted = f"{recv.name}.{attr}"
             c = S.CONTRACTS.get(dotted)
+            if dotted in ("copy.copy", "copy.deepcopy") and len(node.args) == 1 and not node.keywords:
+                # containers are values here: a copy is the value itself, and it is fresh
+                for r, s in self.ev_value(node.args[0], st):
+                    self.last_call_fresh = True
+                    yield r, s
+                return
+            if c is None and dotted in S.OPAQUE_FUNCS:
+                yield from self.call_opaque(dotted, None, node, st)
+                return
             if c is None:
                 raise UnsupportedError(f"no contract for external call {dotted} (line {node.lineno})")
             yield from self.call_by_key(c, None, node, st)
@@ -171,12 +186,15 @@ class CallMixin(ExprMixin):
             if name not in env:
                 if default is None:
                     raise UnsupportedError(f"missing argument {name} for {c.key} (line {node.lineno})")
-                dv = SpecEval(self, st, st, env).ev(S.parse_clause(default))
+                dv = SpecEval(self, st, st, env, None, c.defs).ev(S.parse_clause(default))
                 env[name] = O.coerce(dv, ty)
         return env, argkey
 
     # ---- contract application (modular: callers see only the contract) -------------------------
     def call_contract(self, c, recv, pos, kw, st, node, recv_node=None, arg_nodes=None):
+        if c.inline == "generator":
+            yield from self.call_generator_view(c, recv, pos, kw, st, node)
+            return
         if c.inline:
             yield from self.call_inline(c, recv, pos, kw, st, node)
             return
@@ -192,7 +210,7 @@ class CallMixin(ExprMixin):
         facts = []
         for text in c.requires:
             try:
-                g = SpecEval(self, st, pre, env, facts).clause(text)
+                g = SpecEval(self, st, pre, env, facts, c.defs).clause(text)
             except SpecError as exc:
                 raise UnsupportedError(f"precondition of {c.key}: {exc}")
             st.assume(*facts)
@@ -223,7 +241,7 @@ class CallMixin(ExprMixin):
             se = post.clone()
             ok = True
             try:
-                ev = SpecEval(self, se, pre, post_env, facts)
+                ev = SpecEval(self, se, pre, post_env, facts, c.defs, env)
                 conds = [ev.clause(t) for t in spec.get("when", [])]
                 ens = [ev.clause(t) for t in spec.get("ensures", [])]
             except SpecError as exc2:
@@ -240,19 +258,22 @@ class CallMixin(ExprMixin):
                 yield Raise(exc, line, f"raised by {c.key}"), se
         if self.anon_raise_enabled() and c.anon_raises:
             se = post.clone()
-            ev = SpecEval(self, se, pre, post_env, facts)
+            ev = SpecEval(self, se, pre, post_env, facts, c.defs, env)
             for t in (c.raises.get("AnyException", {}) or {}).get("ensures", []):
                 se.assume(ev.clause(t))
             se.trace.append(f"L{line}:{c.key} raises (anonymous)")
             yield Raise("AnyException", line, f"anonymous exception from {c.key}"), se
         try:
-            ev = SpecEval(self, post, pre, post_env, facts)
-            ens = [ev.clause(t) for t in c.ensures]
+            ev = SpecEval(self, post, pre, post_env, facts, c.defs, env)
+            ens = [ev.clause(t) for t in list(c.ensures) + list(c.ghost_ensures)]
         except SpecError as exc:
             raise UnsupportedError(f"postcondition of {c.key}: {exc}")
         post.assume(*facts)
         post.assume(*ens)
         post.assume(*normal_extra)
+        self.wf(post, result)
+        for name in modified_params:
+            self.wf(post, post_env[name])
         self.writeback(modified_params, post_env, argkey, arg_nodes, recv_node, post, node)
         if memo_key is not None:
             post.pure_memo[memo_key] = result
@@ -297,7 +318,7 @@ class CallMixin(ExprMixin):
         if rec is None:
             raise UnsupportedError(f"modifies {m}: unknown field {parts[-1]}")
         st.heap.write(rec, parts[-1], fty, cur.t, V.fresh(fty, "post_" + parts[-1]))
-        self.note_heap_write(st, rec, parts[-1])
+        self.note_heap_write(st, rec, parts[-1], cur.t)
 
     def writeback(self, modified_params, post_env, argkey, arg_nodes, recv_node, st, node):
         for name in modified_params:
@@ -339,6 +360,85 @@ class CallMixin(ExprMixin):
                 raise UnsupportedError(f"flow {kind} escaped inlined {c.key}")
         self.cur_line = saved_line
 
+    def dict_values_list(self, d, st):
+        """list(d.values()) in an arbitrary but fixed order: index <-> key bijection (Skolem functions)."""
+        kty, vty = d.ty.args
+        (ks,) = kty.sorts()
+        out = V.fresh(T.ListT(vty), "Dvals")
+        m = V.list_len(out)
+        key_of = z3.Function(V.fresh_name("key_of"), z3.IntSort(), ks)
+        idx_of = z3.Function(V.fresh_name("idx_of"), ks, z3.IntSort())
+        i = z3.Int(V.fresh_name("qi"))
+        k = z3.Const(V.fresh_name("qk"), ks)
+        dom = V.dict_keys(d)
+        st.assume(*O.facts_for_card(dom))
+        st.assume(m == V.set_card(dom), m >= 0)
+        st.assume(z3.ForAll([i], z3.Implies(z3.And(0 <= i, i < m), z3.And(
+            z3.Select(d.parts[0], key_of(i)), V.eq(V.list_get(out, i), V.dict_get(d, Val(kty, [key_of(i)]))), idx_of(key_of(i)) == i))))
+        st.assume(z3.ForAll([k], z3.Implies(z3.Select(d.parts[0], k), z3.And(0 <= idx_of(k), idx_of(k) < m, key_of(idx_of(k)) == k))))
+        self.last_call_fresh = True
+        return out
+
+    def call_opaque(self, name, recv, node, st):
+        """Pure library function without a contract of its own: result = uninterpreted function
+        of the arguments (deterministic, no effect on the modelled state)."""
+        self.used_assumed["opaque:" + name] = self.used_assumed.get("opaque:" + name, 0) + 1
+        for vals, s in self.ev_many(list(node.args) + [k.value for k in node.keywords], st):
+            if isinstance(vals, Raise):
+                yield vals, s
+                continue
+            args = ([recv] if recv is not None else []) + [O.coerce(v, T.OPAQUE) if O.is_strlit(v) else v for v in vals]
+            args = [a for a in args if isinstance(a, Val) and a.parts]
+            tag = name + "/" + ",".join([k.arg for k in node.keywords])
+            yield apply_uf(tag, T.OPAQUE, args), s
+
+    def call_generator_view(self, c, recv, pos, kw, st, node):
+        """A generator of the form  [assert ...]* for x in <pure list expr>: [if <pure>: continue]* yield x
+        is read from the real source and evaluated eagerly as the filtered list (DESIGN 3.4.3)."""
+        fn, info = F.find_function(c.file, c.qualname)
+        self.used_inlined[c.key] = self.used_inlined.get(c.key, 0) + 1
+        env, _ = self.bind_params(c, recv, pos, kw, st, node)
+        body = F.strip_docstring(fn.body)
+        loop = None
+        for stmt in body:
+            if isinstance(stmt, ast.Assert):
+                g = SpecEval(self, st, st, env).boolean(self.pure_expr(stmt.test, st))
+                self.oblige("safe", st, g, f"in-code assertion `{ast.unparse(stmt.test)[:60]}` of {c.key} cannot fail", node.lineno, extra={"assert": True})
+                st.assume(g)
+            elif isinstance(stmt, ast.For) and loop is None:
+                loop = stmt
+            else:
+                raise UnsupportedError(f"generator {c.key} is not of the simple filtered-view form (statement {type(stmt).__name__})")
+        if loop is None or not isinstance(loop.target, ast.Name) or loop.orelse:
+            raise UnsupportedError(f"generator {c.key} is not of the simple filtered-view form")
+        var = loop.target.id
+        conds = []
+        stmts = list(loop.body)
+        last = stmts.pop() if stmts else None
+        if not (isinstance(last, ast.Expr) and isinstance(last.value, ast.Yield) and isinstance(last.value.value, ast.Name) and last.value.value.id == var):
+            raise UnsupportedError(f"generator {c.key}: last statement of the loop must be `yield {var}`")
+        for s_ in stmts:
+            if isinstance(s_, ast.If) and len(s_.body) == 1 and isinstance(s_.body[0], ast.Continue) and not s_.orelse:
+                conds.append(self.pure_expr(s_.test, st))
+            else:
+                raise UnsupportedError(f"generator {c.key}: only `if <cond>: continue` filters are supported")
+        facts = []
+        src = O.strip_opt(SpecEval(self, st, st, env, facts).ev(self.pure_expr(loop.iter, st)))
+        st.assume(*facts)
+        if src.ty.kind != "list":
+            raise UnsupportedError(f"generator {c.key} iterates over {src.ty}")
+        self.last_call_fresh = True
+        if not conds:
+            yield src, st
+            return
+        def cond(idx):
+            e = dict(env)
+            e[var] = V.list_get(src, idx)
+            f2 = []
+            r = z3.And([z3.Not(SpecEval(self, st, st, e, f2).boolean(t)) for t in conds])
+            return r
+        yield self.filtered_list(src, cond, st), st
+
     # ---- container methods -----------------------------------------------------------------
     def call_container_method(self, v, attr, node, st):
         kind = v.ty.kind
@@ -350,10 +450,17 @@ class CallMixin(ExprMixin):
             if node.keywords:
                 raise UnsupportedError(f"keyword arguments to .{attr}() at line {node.lineno}")
             # re-read receiver: argument evaluation cannot change it (args are pure here) but states forked
-            if kind in MUTATORS and attr in MUTATORS[kind]:
+            if kind in ("opaque", "name", "strlit") and attr in OPAQUE_STR_METHODS:
+                args = [v if not O.is_strlit(v) else O.coerce(v, T.OPAQUE)] + [O.coerce(a, T.OPAQUE) if O.is_strlit(a) else a for a in vals]
+                yield apply_uf("strm_" + attr, T.OPAQUE, [a for a in args if a.parts]), s
+            elif kind in MUTATORS and attr in MUTATORS[kind]:
                 yield from self.mutate(v, attr, vals, recv_node, s, node)
-            elif kind == "dict" and attr in ("values", "items", "keys"):
-                raise UnsupportedError(f".{attr}() outside a for loop at line {node.lineno}")
+            elif kind == "dict" and attr == "values":
+                yield self.dict_values_list(v, s), s
+            elif kind == "dict" and attr == "keys":
+                yield V.dict_keys(v), s
+            elif kind == "dict" and attr == "items":
+                raise UnsupportedError(f".items() outside a for loop at line {node.lineno}")
             elif kind == "str" and attr == "join":
                 raise UnsupportedError("str.join")
             else:
@@ -421,6 +528,16 @@ class CallMixin(ExprMixin):
             if attr == "append":
                 new = V.list_append(v, self._lit(args[0]))
                 facts.extend(fold_facts_append(self, v, new, args[0], st))
+                # redundant under the array theory, but its pattern lets E-matching carry old
+                # index witnesses over to the extended list
+                qi = z3.Int(V.fresh_name("qi"))
+                if not V.is_empty_literal(v):
+                    xs = O.coerce(self._lit(args[0]), v.ty.elem)
+                    for a_new, xp in zip(new.parts[:-1], xs.parts):
+                        facts.append(z3.Select(a_new, n) == xp)      # ground term new[n] for matching
+                for a_old, a_new in (zip(v.parts[:-1], new.parts[:-1]) if not V.is_empty_literal(v) else []):
+                    facts.append(z3.ForAll([qi], z3.Implies(z3.And(0 <= qi, qi < n), z3.Select(a_new, qi) == z3.Select(a_old, qi)),
+                                           patterns=[z3.Select(a_old, qi)]))
             elif attr == "extend":
                 new = O.list_concat(v, args[0], facts)
                 if not V.is_empty_literal(args[0]):
